@@ -129,9 +129,9 @@ def run(ctx):
 def unsubscribe(ctx, prog):
     """'no message reaches a connection without a matching subscription': a filter is reported as unsubscribed
     (UnsubAckReason::Success) only after the connection was taken out of every place delivery is driven from —
-    the filter's subscriber set, the connection's subscription set, its tracker (Scheduler::untrack) and the
-    filter's parked waiters (DataLog::remove_waiters_for_id) — each addressed with the handler's own id / the
-    filter being processed."""
+    the filter's subscriber set, the connection's subscription set, its tracker (Scheduler::untrack), the
+    filter's parked waiters (DataLog::remove_waiters_for_id) and the requests a publish earlier in the same read has
+    woken (Router.notifications) — each addressed with the handler's own id / the filter being processed."""
     rule = "R-C01-unsubscribe"
     body = prog.one(r"^router::routing::Router::handle_device_payload$")
     succ = []
@@ -150,6 +150,9 @@ def unsubscribe(ctx, prog):
         ("connection.subscriptions", r"HashSet::<T, S, A>::remove$|HashSet::<T, S>::remove$", "subscriptions"),
         ("tracker (Scheduler::untrack)", r"Scheduler::untrack$", None),
         ("parked waiters (DataLog::remove_waiters_for_id)", r"DataLog::remove_waiters_for_id$", None),
+        # a publish earlier in the same read has moved the parked request into Router.notifications already; the
+        # end of the handler puts everything in there back on the tracker
+        ("requests woken earlier in this read (Router.notifications)", r"VecDeque::<T, A>::(retain|retain_mut)$", "notifications"),
     ]
     for what, cre, recv in need:
         hits = []
